@@ -23,6 +23,11 @@ _QUIET = False            # set by the driver process while it computes the dire
 _NOSLEEP = False          # set by the driver process for the serial backend (no concurrency to perturb)
 
 
+def _warm(x):
+    time.sleep(0.15)
+    return x
+
+
 def enc(v):
     if isinstance(v, (list, tuple)):
         return {"s": [enc(x) for x in v]}
@@ -99,6 +104,10 @@ def main():
     persistent = {}
     out = []
 
+    # process workers re-import this file: give THEM a longer sleep unit, so that completion order really differs from
+    # submission order in spite of IPC latency (threads in this process keep the short unit)
+    os.environ["C65_UNIT"] = os.environ.get("C65_PROC_UNIT", "0.008")
+
     def get_exec(be, w, persist):
         if be == "serial":
             return create_executor(be), False
@@ -106,6 +115,11 @@ def main():
             key = (be, w)
             if key not in persistent:
                 persistent[key] = create_executor(be, max_workers=w, persist=True)
+                if be in ("mp_pool", "cf_procpool") and w >= 2:
+                    try:            # warm-up: make sure every worker process is up before order-sensitive calls
+                        persistent[key].map(_warm, list(range(2 * w)))
+                    except Exception:
+                        pass
             return persistent[key], False
         return create_executor(be, max_workers=w), True
 
